@@ -8,7 +8,7 @@ Exit codes: 0 property held on everything explored (KNOWN-FINDING lines possible
 "VIOLATION property=<id> replay=<path>" is printed), 2 infrastructure error (build failure, determinism
 gate, replay gate) -- never a verdict.
 """
-import argparse, collections, json, os, re, subprocess, sys, threading, time, hashlib, bisect
+import argparse, collections, json, os, re, select, subprocess, sys, threading, time, hashlib, bisect
 
 HERE = os.path.dirname(os.path.abspath(__file__))
 VERIF = os.path.dirname(os.path.dirname(HERE))
@@ -17,8 +17,9 @@ import build as rxbuild  # noqa: E402
 import propcfg            # noqa: E402
 
 NCPU = os.cpu_count() or 4
-REPLAYS = os.path.join(VERIF, "replays")
-EVIDENCE = os.path.join(VERIF, "evidence")
+OUT = os.environ.get("VERIF_OUT", VERIF)   # mutant / seeded-change runs write their evidence and replays elsewhere
+REPLAYS = os.path.join(OUT, "replays")
+EVIDENCE = os.path.join(OUT, "evidence")
 KNOWN = os.path.join(VERIF, "known_findings.json")
 
 
@@ -78,8 +79,7 @@ class Symbolizer:
             acc.sort()
             rest = " ".join(parts[3:])
             rest = re.sub(r"lib\+0x([0-9a-f]+)", lambda m: self.name(int(m.group(1), 16)), rest)
-            rest = re.sub(r"heap\(size=(\d+),off=(\d+)\)", r"heap(size=\1,off=\2)", rest)
-            return "race %s %s %s" % (acc[0], acc[1], rest)
+            return "race %s by %s / %s" % (rest, acc[0], acc[1])
         return re.sub(r"lib\+0x([0-9a-f]+)", lambda m: self.name(int(m.group(1), 16)), s)
 
 
@@ -94,6 +94,7 @@ class Batch:
         self.lock = threading.Lock()
         self.restarts = 0
         self.unreported_deaths = 0
+        self.hangs = 0
         self.wall = 0.0
         self.hello = None
         self.bye = []
@@ -121,28 +122,46 @@ class Batch:
             while start < total and time.time() < deadline:
                 remaining = max(1.0, budget - (time.time() - t0))
                 cmd = self.worker_cmd(w, nworkers, start, total, remaining, 1 if (collect_samples and w == 0 and start == 0) else 0)
-                p = subprocess.Popen(cmd, stdout=subprocess.PIPE, stderr=subprocess.DEVNULL, text=True, bufsize=1 << 16)
+                p = subprocess.Popen(cmd, stdout=subprocess.PIPE, stderr=subprocess.DEVNULL)
                 last_idx = None
                 got_bye = False
-                for line in p.stdout:
-                    line = line.strip()
-                    if not line:
-                        continue
-                    try:
-                        j = json.loads(line)
-                    except Exception:
-                        continue
-                    t = j.get("type")
-                    if t == "hello":
-                        self.hello = j
-                    elif t == "bye":
-                        got_bye = True
-                        with self.lock:
-                            self.bye.append(j)
-                    elif t == "run":
-                        last_idx = j["run"]
-                        self.absorb(j)
+                hung = False
+                fd = p.stdout.fileno()
+                buf = b""
+                hang_s = spec.get("hang_s", 900 if spec["config"] == "shipped" else 240)
+                while True:
+                    ready, _, _ = select.select([fd], [], [], hang_s)
+                    if not ready:
+                        hung = True      # no result line for hang_s seconds: never wait forever on a worker
+                        p.kill()
+                        break
+                    chunk = os.read(fd, 1 << 16)
+                    if not chunk:
+                        break
+                    buf += chunk
+                    while b"\n" in buf:
+                        line, buf = buf.split(b"\n", 1)
+                        line = line.strip()
+                        if not line:
+                            continue
+                        try:
+                            j = json.loads(line)
+                        except Exception:
+                            continue
+                        t = j.get("type")
+                        if t == "hello":
+                            self.hello = j
+                        elif t == "bye":
+                            got_bye = True
+                            with self.lock:
+                                self.bye.append(j)
+                        elif t == "run":
+                            last_idx = j["run"]
+                            self.absorb(j)
                 p.wait()
+                if hung:
+                    with self.lock:
+                        self.hangs += 1
                 if got_bye:
                     break
                 # worker died: either it reported a crash for run last_idx, or it vanished
@@ -218,6 +237,27 @@ def has_violation(res, cls, sig, sym):
     for v in res.get("violations", []):
         if v["cls"] == cls and sym.sig(v["sig"]) == sig:
             return True
+    return False
+
+
+def race_loc(sig):
+    m = re.match(r"race (loc=\S+)", sig)
+    if not m:
+        return None
+    loc = m.group(1)
+    return "loc=heap" if loc.startswith("loc=heap") else loc
+
+
+def has_violation_other_config(res, cls, sig, sym):
+    """same violation on another configuration: exact class+signature, or for TSan races the same racy location
+    (which pair of accesses is reported, and whether the earlier stack can be restored, depends on the configuration)"""
+    if has_violation(res, cls, sig, sym):
+        return True
+    if cls == "TSAN_RACE":
+        want = race_loc(sig)
+        for v in res.get("violations", []):
+            if v["cls"] == cls and race_loc(sym.sig(v["sig"])) == want:
+                return True
     return False
 
 
@@ -394,6 +434,8 @@ def run_check(prop, tier, seed, budget_scale=1.0):
         for idx, why, plan in b.invalid:
             if not why.startswith("model:"):
                 infra_problems.append("generated plan %d invalid: %s" % (idx, why))
+        if b.hangs:
+            infra_problems.append("%d worker(s) produced no result line for too long and were killed in batch %s" % (b.hangs, spec.get("name")))
         if b.unreported_deaths:
             infra_problems.append("%d worker deaths without a crash report in batch %s" % (b.unreported_deaths, spec.get("name")))
         for idx, v, plan in b.violations:
@@ -472,17 +514,28 @@ def run_check(prop, tier, seed, budget_scale=1.0):
         if ok < 2:
             mplan = plan
         confirm = "not_needed"
-        if key[1] != "shipped" and cfg.get("confirm_on_shipped", True):
+        # Confirmation on the shipped configuration guards against artefacts of the reduced constants (a digest,
+        # dataset item or crash that only a reduced configuration produces). A race between two library accesses,
+        # a W+X page, a leak or a wrong return value is a fact about the code and needs no confirmation.
+        needs_confirm = cls in ("DIGEST_MISMATCH", "CACHE_CHECKSUM", "DATASET_ITEM_MISMATCH", "DATASET_WRITE_OUTSIDE", "DATASET_MODEL_DISAGREE", "MODEL_NOISE_DEPENDENCE",
+                                "UNEXPECTED_NULL", "TERMINATE") or cls.startswith("CRASH_")
+        if key[1] != "shipped" and cfg.get("confirm_on_shipped", True) and needs_confirm:
             skey = (key[0] if key[0] != "assert" else "plain", "shipped")
             try:
                 sexe = rxbuild.build(*skey)
+                ssym = Symbolizer(sexe)
                 r = replay_once(sexe, mplan, timeout=1800)
                 if r.get("invalid"):
                     confirm = "not_runnable_on_shipped(%s)" % r.get("invalid_reason", "")[:80]
-                elif has_violation(r, cls, sig, Symbolizer(sexe)):
+                elif has_violation_other_config(r, cls, sig, ssym):
                     confirm = "reproduced_on_shipped"
                 else:
-                    confirm = "not_reproduced_on_shipped"
+                    # the minimised schedule may be too coarse for the shipped constants: try the original plan
+                    r2 = replay_once(sexe, plan, timeout=1800)
+                    if not r2.get("invalid") and has_violation_other_config(r2, cls, sig, ssym):
+                        confirm = "reproduced_on_shipped(original plan)"
+                    else:
+                        confirm = "not_reproduced_on_shipped"
             except Exception as e:
                 confirm = "shipped_build_failed(%s)" % str(e)[:80]
         mplan["expect"] = {"cls": cls, "sig": sig, "variant": key[0], "config": key[1], "confirm": confirm, "detail": info["detail"]}
@@ -492,6 +545,7 @@ def run_check(prop, tier, seed, budget_scale=1.0):
             json.dump(mplan, f, indent=1)
         if confirm == "not_reproduced_on_shipped":
             unconfirmed.append({"cls": cls, "sig": sig, "replay": path})
+            print("UNCONFIRMED-ANOMALY property=%s (reduced configuration only, not a verdict) %s %s replay=%s" % (prop, cls, sig, path))
             continue
         n_viol += 1
         out_lines.append("VIOLATION property=%s replay=%s" % (prop, path))
